@@ -166,8 +166,8 @@ theorem C15_totals {g : Graph} (hg : g.WF) {cfg : Cfg} (hw : 1 ≤ cfg.workers) 
         cases hs : s.skipped with
         | nil => rfl
         | cons a t =>
-          rcases h4.skipWhy (by rw [hs]; simp) with h1 | h1
-          · exact absurd hf h1
+          rcases h4.skipWhy (by rw [hs]; simp) with ⟨k', _, hlt⟩ | h1
+          · have := (inv2_reach hw h).errsLen; rw [hf] at this; simp at this; omega
           · rw [hc] at h1; cases h1
       obtain ⟨q1, q2, _⟩ := h4.quiet (by rw [hc]; rfl)
       have enq_okd : ∀ y, y ∈ s.enq → y ∈ s.okd ∧ y ∈ s.retired := by
